@@ -79,10 +79,33 @@ def check(ctx, src):
                             witness="two or more elements in the set")
                 else:
                     ctx.unres("DET-HYSET", key, f"use in ({head} ...)")
+        # set-valued expressions iterated in place: (lfor x (sfor …) …), (for [x #{…}] …), (dfor m (set …) …)
+        for node in hf.walk():
+            is_set = node.kind == "set" or (node.kind == "expr" and node.head() in ("sfor", "set", "frozenset"))
+            par = node._parent
+            if not is_set or par is None:
+                continue
+            head = par.head() if par.kind == "expr" else None
+            key = f"{rel}|inline {node.src()[:40]}|in ({head} …)"
+            if (head in ("lfor", "gfor", "dfor") and node is not par.items[-1]) or (par.kind == "list" and par._parent is not None and par._parent.head() == "for") \
+                    or head in ("list", "tuple", "map", "enumerate", "zip", "iter", "next", ".join", "unpack-iterable"):
+                ctx.bad("DET-HYSET", key, f"a set-valued expression is iterated by ({head or 'for'} …): the order of the result depends on PYTHONHASHSEED", rel, node.line,
+                        witness="two or more elements: e.g. the dict that (local-macros) expands to lists its keys in a different order per process")
+            elif head in HY_ORDER_FREE or head in ("sfor", "setv", "when", "if", "and", "or", "|", "&", "-"):
+                ctx.ok("DET-HYSET", key, f"({head} …)", nontrivial=False)
     ctx.floor("DET-HYSET", 4)
 
 
 SELFTESTS = [
+    dict(name="local macros deduplicated through a set", file="hy/core/macros.hy", old="""  (setv seen #{})
+  (dfor
+    state _hy_compiler.local_state_stack
+    m (get state "macros")
+    :if (not-in m seen)
+    :do (.add seen m)
+    m (hy.models.Symbol (hy.macros.local-macro-name m))))""", new="""  (dfor
+    m (sfor state _hy_compiler.local_state_stack  m (get state "macros")  m)
+    m (hy.models.Symbol (hy.macros.local-macro-name m))))""", rule="DET-HYSET", key="inline"),
     dict(name="finalize sorted->list", file="hy/scoping.py", old="return sorted(res)", new="return list(res)",
          rule="DET-SET", key="ScopeGen.finalize"),
     dict(name="finalize sorted(list())", file="hy/scoping.py", old="return sorted(res)", new="return sorted(list(res))", kind="twin"),
